@@ -128,7 +128,7 @@ func runC18(c *Ctx) {
 		if rng.New(seed).Intn(5) == 0 {
 			cfg.V4Bits = 32
 		}
-		cs, _ := phasedScenario(c, seed, cfg, i%3)
+		cs, _ := phasedScenario(c, seed, cfg, i%3+3*((i/3)%4))
 		cases = append(cases, cs...)
 	}
 	res.Notes = append(res.Notes, fmt.Sprintf("phased: %d scenarios in %.1fs", nPhased, time.Since(t0).Seconds()))
@@ -175,8 +175,12 @@ func runC18(c *Ctx) {
 // phasedScenario generates and runs one phased scenario; variant 0: Close after everything
 // was served, 1: Close while handlers are held and requests are blocked, 2: like 1 with a
 // disconnect/reconnect in the script.
-func phasedScenario(c *Ctx, seed uint64, cfg bedConfig, variant int) (cases []string, ok bool) {
+func phasedScenario(c *Ctx, seed uint64, cfg bedConfig, fullVariant int) (cases []string, ok bool) {
 	r := rng.New(seed)
+	// fullVariant = script variant (0..2) + 3 * the way Close is reached (closePlain..closeTwice)
+	variant, mode := fullVariant%3, (fullVariant/3)%4
+	cfg.FailHistory = mode == closeRunFailed
+	pinned := mode == closeListenerFirst || mode == closeRunFailed // handlers held, nothing blocked
 	sc, err := newScen(cfg, r)
 	if err != nil {
 		c.Res.Fail("harness-setup-failed", err.Error(), nil)
@@ -265,7 +269,7 @@ func phasedScenario(c *Ctx, seed uint64, cfg bedConfig, variant int) (cases []st
 		probe := map[int]int{}
 		for _, p := range sc.peers {
 			probe[p.id] = L
-			if variant != 0 {
+			if variant != 0 && !pinned {
 				probe[p.id] = L + 1 + r.Intn(2) // leave some blocked for the Close below
 			}
 		}
@@ -286,14 +290,14 @@ func phasedScenario(c *Ctx, seed uint64, cfg bedConfig, variant int) (cases []st
 		}
 		sc.tb.mu.Unlock()
 	}
-	if len(sc.fails) == 0 && variant == 0 {
+	if len(sc.fails) == 0 && variant == 0 && !pinned {
 		sc.drain("final drain")
 	}
 
 	nontrivial := sc.notes["dropped"] > 0
 	sc.tb.mu.Lock()
 	for _, ri := range sc.tb.rpcs {
-		if !ri.resolved() || variant != 0 {
+		if !ri.resolved() || variant != 0 || pinned {
 			nontrivial = true
 		}
 	}
@@ -302,14 +306,15 @@ func phasedScenario(c *Ctx, seed uint64, cfg bedConfig, variant int) (cases []st
 	in, out, live := sc.observe()
 	if len(sc.fails) == 0 {
 		cases = append(cases, sc.coqCase(pre, in, out, live, false))
-		sc.closeSyncer("close")
+		sc.closeSyncer("close", mode)
 		sc.tb.mu.Lock()
 		full := append([]string(nil), sc.trace...)
 		sc.tb.mu.Unlock()
 		in2, out2, live2 := sc.observe()
-		if len(sc.fails) == 0 {
+		if len(sc.fails) == 0 && !sc.noTrace {
 			cases = append(cases, sc.coqCase(full, in2, out2, live2, true))
 		}
+		c.Res.Count("phased:close-mode=" + closeModeName[mode])
 	}
 
 	canon := fmt.Sprintf("%+v|%s", cfg, strings.Join(sc.steps, "|"))
@@ -322,6 +327,6 @@ func phasedScenario(c *Ctx, seed uint64, cfg bedConfig, variant int) (cases []st
 	if len(c.Res.Samples) < 2 {
 		c.Res.Sample(map[string]any{"section": "phased", "cfg": cfg, "script": sc.steps})
 	}
-	report(c, "phased", seed, cfg, variant, sc.steps, sc.fails)
+	report(c, "phased", seed, cfg, fullVariant, sc.steps, sc.fails)
 	return cases, len(sc.fails) == 0
 }
